@@ -2,6 +2,7 @@ package schema
 
 import (
 	"fmt"
+	"sync"
 
 	"github.com/ipld/go-ipld-prime/datamodel"
 )
@@ -240,10 +241,15 @@ func accumulateWithRecovery(ts *TypeSystem, typ Type) {
 
 func (ts *TypeSystem) Init() {
 	ts.namedTypes = make(map[TypeName]Type)
+	ts.mu = new(sync.RWMutex)
 }
 func (ts *TypeSystem) Accumulate(typ Type) {
 	typ._Type(ts)
 	name := typ.Name()
+	if ts.mu != nil {
+		ts.mu.Lock()
+		defer ts.mu.Unlock()
+	}
 	if _, ok := ts.namedTypes[name]; ok {
 		panic(fmt.Sprintf("duplicate type name: %s", name))
 	}
@@ -254,7 +260,7 @@ func (ts TypeSystem) GetTypes() map[TypeName]Type {
 	return ts.namedTypes
 }
 func (ts TypeSystem) TypeByName(n string) Type {
-	return ts.namedTypes[n]
+	return ts.typeByName(n)
 }
 func (ts TypeSystem) Names() []TypeName {
 	return ts.names
